@@ -9,6 +9,7 @@
 //     the validation result is known);
 //   - the database writes that do not go through the block batch inside Process,
 //     ValidateState, HeaderChain.Finalize, TrimBlock and RedeemLockedQuai.
+//
 // Props/C07.v states the side conditions over these lists (vm_compute): removing or
 // reordering a comparison, writing the batch before Apply returned, not deleting the
 // canonical hash on error, or adding a direct database write to Process breaks them.
@@ -277,13 +278,14 @@ func coqList(items []string) string {
 // reservationOps lists, for every function of core/worker.go, the statements that mention the field
 // deletedUtxos (the per-block set the worker uses to arbitrate between pool transactions spending
 // the same outpoint), in source order, classified:
-//   make           deletedUtxos: make(...) in a composite literal
-//   lookup-reject  `if _, ok := x.deletedUtxos[h]; ok { return <error> }` (or the assignment form followed by nothing else)
-//   lookup         any other read of an element
-//   insert         x.deletedUtxos[h] = ...
-//   delete         delete(x.deletedUtxos, ...)
-//   reset          x.deletedUtxos = ...
-//   other          anything else (passed on, ranged over, copied, len, ...)
+//
+//	make           deletedUtxos: make(...) in a composite literal
+//	lookup-reject  `if _, ok := x.deletedUtxos[h]; ok { return <error> }` (or the assignment form followed by nothing else)
+//	lookup         any other read of an element
+//	insert         x.deletedUtxos[h] = ...
+//	delete         delete(x.deletedUtxos, ...)
+//	reset          x.deletedUtxos = ...
+//	other          anything else (passed on, ranged over, copied, len, ...)
 func reservationOps(file string) [][2]string {
 	f, err := parser.ParseFile(fset, file, nil, 0)
 	if err != nil {
@@ -388,6 +390,79 @@ func reservationOps(file string) [][2]string {
 	var out [][2]string
 	for _, o := range ops {
 		out = append(out, [2]string{o.fn, o.kind})
+	}
+	return out
+}
+
+// applyGuard (third strengthening round): the generic path of worker.commitTransaction, i.e. the top-level
+// statements around the call of ApplyTransaction: "snapshot:<v>" for `<v> := <x>.Snapshot()` before the call,
+// "apply", then the skeleton of the statement that follows the call (expected: `if err != nil { ...
+// <x>.RevertToSnapshot(<v>) ... return ..., err }`): "if-err{", "revert:<v>", "return-err", "}".
+func applyGuard(fd *ast.FuncDecl) []string {
+	var out []string
+	list := fd.Body.List
+	ia := -1
+	for i, st := range list {
+		if as, ok := st.(*ast.AssignStmt); ok && len(as.Rhs) == 1 {
+			if ce, ok := as.Rhs[0].(*ast.CallExpr); ok && src(ce.Fun) == "ApplyTransaction" {
+				ia = i
+			}
+		}
+	}
+	if ia < 0 {
+		return []string{"no-apply-call"}
+	}
+	for _, st := range list[:ia] {
+		if as, ok := st.(*ast.AssignStmt); ok && len(as.Lhs) == 1 && len(as.Rhs) == 1 {
+			if ce, ok := as.Rhs[0].(*ast.CallExpr); ok && strings.HasSuffix(src(ce.Fun), ".Snapshot") {
+				out = append(out, "snapshot:"+src(as.Lhs[0]))
+			}
+		}
+	}
+	out = append(out, "apply")
+	if ia+1 < len(list) {
+		if is, ok := list[ia+1].(*ast.IfStmt); ok {
+			out = append(out, skeleton(&ast.BlockStmt{List: []ast.Stmt{is}}, func(fn string, ce *ast.CallExpr) string {
+				if strings.HasSuffix(fn, ".RevertToSnapshot") {
+					return "revert:" + firstArg(ce)
+				}
+				return ""
+			})...)
+		}
+	}
+	return out
+}
+
+// inclusionRule (third strengthening round): where StateProcessor.Process decides whether the inbound ETX
+// queue is still non-empty, relative to the loop that pops the block's ETXs from it. Top-level statements of
+// Process in source order: "etx-loop" (the loop that calls PopETX), "GetOldestIndex", "ReadETX", and for every
+// `if` whose condition mentions etxAvailable: "rule:" ++ condition.
+func inclusionRule(fd *ast.FuncDecl) []string {
+	var out []string
+	for _, st := range fd.Body.List {
+		t := src(st)
+		switch s := st.(type) {
+		case *ast.RangeStmt, *ast.ForStmt:
+			if strings.Contains(t, ".PopETX(") {
+				out = append(out, "etx-loop")
+			}
+			if strings.Contains(t, ".GetOldestIndex(") {
+				out = append(out, "GetOldestIndex-in-loop")
+			}
+		case *ast.IfStmt:
+			if strings.Contains(src(s.Cond), "etxAvailable") {
+				out = append(out, "rule:"+strings.Join(strings.Fields(src(s.Cond)), " "))
+			} else if strings.Contains(t, ".GetOldestIndex(") {
+				out = append(out, "GetOldestIndex-nested")
+			}
+		case *ast.AssignStmt:
+			if strings.Contains(t, ".GetOldestIndex(") {
+				out = append(out, "GetOldestIndex")
+			}
+			if strings.Contains(t, ".ReadETX(") {
+				out = append(out, "ReadETX")
+			}
+		}
 	}
 	return out
 }
@@ -536,7 +611,10 @@ func main() {
 		}
 		fmt.Fprintf(&sb, "(%s, %s)", coqStr(d[0]), coqStr(d[1]))
 	}
-	sb.WriteString("].\n")
+	sb.WriteString("].\n\n")
+	ct := findFunc(filepath.Join(core, "worker.go"), "*worker", "commitTransaction")
+	fmt.Fprintf(&sb, "(* worker.commitTransaction, generic path: snapshot / ApplyTransaction / error branch *)\nDefinition worker_apply_guard : list string := %s.\n\n", coqList(applyGuard(ct)))
+	fmt.Fprintf(&sb, "(* StateProcessor.Process: the loop popping the block's inbound ETXs, the probe of the queue head and the\n   minimum-inclusion rules, top-level statements in source order *)\nDefinition process_inclusion_rule : list string := %s.\n", coqList(inclusionRule(pr)))
 	if *out == "" {
 		fmt.Print(sb.String())
 		return
